@@ -491,6 +491,45 @@ def _nonce_class(c, prog):
            bad is None, bad or "conditions %s" % atoms, f.where(), f.path)
 
 
+def _accessors(c, prog):
+    """R5: small accessors both views and the blinders read the PSET through: counts come from the global transaction data,
+    the vectors are returned as they are, and the blinding-state predicates of an output have the Elements tables."""
+    from ..analysis import bool_fn_table
+    P = "pset::"
+    views = {
+        P + "PartiallySignedTransaction::n_inputs": "pset::map::global::Global::n_inputs(arg1.global)",
+        P + "PartiallySignedTransaction::n_outputs": "pset::map::global::Global::n_outputs(arg1.global)",
+        P + "map::global::Global::n_inputs": "arg1.tx_data.input_count",
+        P + "map::global::Global::n_outputs": "arg1.tx_data.output_count",
+        P + "PartiallySignedTransaction::inputs": "arg1.inputs",
+        P + "PartiallySignedTransaction::outputs": "arg1.outputs",
+        P + "map::output::Output::is_marked_for_blinding": "std::option::Option::is_some(arg1.blinding_key)",
+        P + "map::input::Input::has_issuance": "Not(transaction::AssetIssuance::is_null(pset::map::input::Input::asset_issuance(arg1)))",
+    }
+    for fnp, want in views.items():
+        f = prog.fn(fnp)
+        t = show(Prov(f.body).local(0), -30)
+        c.inst("R5.pset-accessors", fnp[len(P):], t == want, "returns %s" % t[:200], f.where(), fnp)
+    MARK = "pset::map::output::Output::is_marked_for_blinding(arg1)"
+    FIELDS = ["amount_comm", "asset_comm", "value_rangeproof", "asset_surjection_proof", "ecdh_pubkey"]
+    for fnp, comb in ((P + "map::output::Output::is_partially_blinded", any), (P + "map::output::Output::is_fully_blinded", all)):
+        f = prog.fn(fnp)
+        atoms, table = bool_fn_table(f.body, max_atoms=8)
+        want_atoms = [MARK] + ["std::option::Option::is_some(arg1.%s)" % x for x in FIELDS]
+        bad = None
+        if table is None or sorted(atoms) != sorted(want_atoms):
+            bad = "conditions %s" % atoms
+        else:
+            for bits, res in table.items():
+                v = dict(zip(atoms, bits))
+                exp = v[MARK] and comb(v[a] for a in want_atoms[1:])
+                if res != exp:
+                    bad = "%s gives %s" % ({a.split("(")[-1][:-1]: b for a, b in v.items()}, res)
+                    break
+        c.inst("R5.pset-accessors", fnp[len(P):] + (": marked and any of" if comb is any else ": marked and all of") + " commitments, proofs, ecdh key", bad is None, bad or "64-row table", f.where(), fnp)
+    c.floor("R5.pset-accessors", 10)
+
+
 def run(c, prog, ctx):
     c.explanation = (
         "Static decision of the structural clauses of C08: (R1) exhaustive abstract interpretation of "
@@ -506,4 +545,5 @@ def run(c, prog, ctx):
     _unique_id(c, prog)
     _mapping(c, prog)
     _nonce_class(c, prog)
+    _accessors(c, prog)
     _flag_exemption(c, prog)
